@@ -18,16 +18,25 @@ RULE = ("operation sequences on 1-3 sections of one output at terminal width 10:
         "belong to, which a section created afterwards starts with - are operations like the others (starting with no section at "
         "all; write_line of 1 / 11 / 20 cells and of two lines, overwrite, clear(), clear(1), section.indent(2)); random ones up to "
         "length 40 over everything (also 20 / 30-cell lines, 7 / 14 / 21, 80 / 160, lines of white space only, output.indent) with "
-        "sections created on the way, at widths {1, 7, 10, 80}, in ANSI and in plain mode; the emitted bytes (SGR sequences "
+        "sections created on the way, at widths {1, 7, 10, 80}, in ANSI and in plain mode; texts that end or start with a line break "
+        "('s\\n', '\\n' alone, 't\\n\\n', '\\nu', a tagged wrapped one), lines of one-cell characters beyond ASCII (10 x e-acute, a tagged "
+        "Greek / Cyrillic line, 11 x zhe) and clear(0) in the random part, 's\\n' in the plain alphabet; "
+        "the OUTPUT the sections are taken from: a buffer with a forced AnsiFormatter / with a PlainFormatter (all of the above), and - "
+        "all sequences of the plain alphabet to length 2 on 1-3 sections, a quarter of the random ones - a stream that says it supports "
+        "ANSI (a terminal) with an unforced AnsiFormatter, with a forced one, with a PlainFormatter (must degrade), and a stream "
+        "without ANSI support with an unforced AnsiFormatter (must degrade); the emitted bytes (SGR sequences "
         "included) are replayed on an independent terminal emulator that REJECTS what it does not model (ESC[2J is not 'erase "
         "below'); the screen must show the stacked contents AND every cell in the look (SGR pen) of its own line, the pen left at "
-        "default; a run in which a call raises is compared up to the failing call; the class of the theorems (good markup) is "
+        "default; the same bytes replayed on a terminal that already shows three rows must leave those rows alone (a cursor movement "
+        "beyond the first section's first row is invisible on an empty terminal); a run in which a call raises is compared up to the failing call; the class of the theorems (good markup) is "
         "decided on both sides and compared; outside it the stack claim is dropped only where a partial clear really cut a tag that "
         "spans a line break; non-trivial = touches >= 2 sections or a wrapped line or a tag or an indentation; distinct by op "
         "sequence and width")
 TRUSTED = ["Base/Term.v as the terminal (infinite height, deferred auto-wrap, LF implies CR, an SGR sequence occupies no cell); "
            "tabs and wide characters in section texts are outside the model (a character is one cell); pastel is modelled by "
-           "Model/Markup.v (tied by C11 and by this run)"]
+           "Model/Markup.v (tied by C11 and by this run)",
+           "which output is decorated (Output.supports_ansi(): the stream supports ANSI and the formatter does not disable it, or the "
+           "formatter forces it) is a four-row table of the harness (OUTS); the model is told the expected answer"]
 ASSUMPTIONS = ["screen_is_stack: every line of a written text is good markup (no ESC / tab, no backslash at its end or right before a "
                "tag, the formatter accepts it and leaves the style stack empty: no tag spans a line break); any indentation"]
 
@@ -55,8 +64,22 @@ TEXTS = ["a", "b" * 9, "c" * 10, "d" * 11, "e" * 23, "f\n" + "g" * 12,
          "j" * 7, "k" * 14, "l" * 21,          # 25-27 one / two / three rows at width 7
          "n" * 80, "o" * 160,                  # 28, 29 one / two rows at width 80
          "<b>" + "p" * 20 + "</b>",            # 30 visible exactly two rows
-         "q" * 19 + "\n" + "r" * 21]           # 31 just below / above two rows
+         "q" * 19 + "\n" + "r" * 21,           # 31 just below / above two rows
+         "s\n",                               # 32 a text that ENDS with a line break: the last content line is an empty one
+         "\n",                                # 33 a line break alone: two empty lines
+         "t\n\n",                             # 34
+         "\nu",                               # 35 a text that starts with a line break
+         "<b>v</b>\n" + "w" * 11 + "\n",      # 36 tagged, wrapped, ending with a line break
+         "\u00e9" * 10,                        # 37 characters beyond ASCII (one cell each): exactly one row at width 10 - two if bytes were counted
+         "<info>\u03bb\u0436\u00fc</info> \u00e7a\n" + "\u0436" * 11]   # 38 tagged; a second line that wraps
 PLAIN_T = range(6)
+# the output the sections are taken from (case field "out"; absent = a buffer with a forced AnsiFormatter (ansi 1) / a PlainFormatter
+# (ansi 0), as in every case before).  'ansi' in a case stays the answer expected of Output.supports_ansi(): the model's flag
+OUTS = {"tty": 1,          # a stream that supports ANSI (a terminal) with an AnsiFormatter that is NOT forced
+        "tty-forced": 1,   # ... with a forced one
+        "tty-plain": 0,    # a terminal with a PlainFormatter (--no-ansi): no control codes
+        "pipe-ansi": 0}    # a stream without ANSI support (a pipe) with an AnsiFormatter that is not forced: no control codes
+PREAMBLE = "#\n#\n#\n"     # rows already on the terminal above the sections (the oracle's second emulator run)
 WIDTHS = [1, 7, 10, 80]
 TAGGED_SMALL = [6, 7, 8, 10, 12, 13, 17]
 INDENTS = [0, 2, 3, 7, 12]
@@ -69,6 +92,7 @@ def ops_for(nsec):
         for t in PLAIN_T:
             ops.append([1, i, t, 1])
         ops.append([1, i, 0, 0])
+        ops.append([1, i, 32, 1])
         ops.append([2, i, 1])
         ops.append([2, i, 4])
         ops.append([3, i, None])
@@ -100,7 +124,7 @@ def ops_all(nsec):
             ops.append([2, i, t])
         ops.append([1, i, 0, 0])
         ops.append([1, i, 9, 0])
-        for n in (None, None, 1, 1, 2, 3):
+        for n in (None, None, 1, 1, 2, 3, 0):
             ops.append([3, i, n])
         for n in INDENTS:
             ops.append([4, i, n])
@@ -139,6 +163,15 @@ def gen(rng, tier, info):
             for seq in itertools.product(al, repeat=k):
                 for ansi in ((1, 0) if k <= 2 else (1,)):
                     cases.append({"ansi": ansi, "ops": [[0]] * nsec + [list(o) for o in seq]})
+    n_kinds = len(cases)
+    # every kind of output (terminal / pipe x forced / unforced / plain formatter) on all sequences up to length 2
+    for nsec in (1, 2, 3):
+        al = ops_for(nsec)
+        for k in range(0, 3 if tier != "search" else 2):
+            for seq in itertools.product(al, repeat=k):
+                for out, ansi in sorted(OUTS.items()):
+                    cases.append({"ansi": ansi, "out": out, "ops": [[0]] * nsec + [list(o) for o in seq]})
+    n_kinds = len(cases) - n_kinds
     n_plain = len(cases)
     for nsec, d in ((1, depth + 1 if tier != "search" else depth), (2, min(depth, 3))):
         al = ops_tagged(nsec)
@@ -168,12 +201,16 @@ def gen(rng, tier, info):
             else:
                 ops.append(list(rng.choice(ops_all(n))))
         c = {"ansi": 1 if rng.random() < 0.85 else 0, "ops": ops}
+        if rng.random() < 0.25:
+            c["out"] = rng.choice(sorted(OUTS))
+            c["ansi"] = OUTS[c["out"]]
         w = rng.choice(WIDTHS + [10, 10])
         if w != W:
             c["w"] = w
         cases.append(c)
     info["exhaustive"] = True
-    info["distribution"] = {"exhaustive_plain": n_plain, "exhaustive_tagged_indented": n_ex - n_plain,
+    info["distribution"] = {"exhaustive_plain": n_plain - n_kinds, "exhaustive_output_kinds": n_kinds, "output_kinds": sorted(OUTS),
+                            "exhaustive_tagged_indented": n_ex - n_plain,
                             "exhaustive_with_create_and_parent_indent": n_cr, "random": nrand, "depth": depth,
                             "depth_with_create": dc, "widths_exhaustive": [W], "widths_random": WIDTHS}
     return cases
@@ -229,7 +266,7 @@ def describe(c):
         if o[0] == 5:
             return "output.indent(%d)" % o[1]
         return "s%d.indent(%d)" % (o[1], o[2])
-    return ("ANSI" if c["ansi"] else "plain") + " width %d: " % width(c) + "; ".join(d(o) for o in c["ops"])
+    return ("ANSI" if c["ansi"] else "plain") + (" (output: %s)" % c["out"] if c.get("out") else "") + " width %d: " % width(c) + "; ".join(d(o) for o in c["ops"])
 
 
 # ---- the class of the theorems, decided independently of the model (Model/Section.v good_opsb) ----
@@ -289,9 +326,22 @@ def _screen(data, w):
 def run_impl(c):
     w = width(c)
     os.environ["COLUMNS"] = str(w)
-    from clikit.io import BufferedIO
+    from clikit.api.io import Output
+    from clikit.io.output_stream import BufferedOutputStream
     from clikit.formatter import AnsiFormatter, PlainFormatter
-    io = BufferedIO(formatter=AnsiFormatter(forced=True) if c["ansi"] else PlainFormatter())
+
+    class Tty(BufferedOutputStream):
+        def supports_ansi(self):
+            return True
+    kind = c.get("out") or ("forced" if c["ansi"] else "plain")
+    stream = Tty() if kind.startswith("tty") else BufferedOutputStream()
+    formatter = {"forced": lambda: AnsiFormatter(forced=True), "tty-forced": lambda: AnsiFormatter(forced=True), "tty": AnsiFormatter,
+                 "pipe-ansi": AnsiFormatter, "plain": PlainFormatter, "tty-plain": PlainFormatter}[kind]()
+
+    class _IO(object):          # the two things the run needs of an IO: the output and what was written to it
+        output = Output(stream, formatter)
+        fetch_output = staticmethod(stream.fetch)
+    io = _IO()
     secs = []
     failed = None
     j = 0
@@ -321,15 +371,18 @@ def run_impl(c):
         done = [x for x in c["ops"] if x[0] != 5][:j]
         t = _screen(data, w)
         return [failed[0], failed[1], j, termemu.tokens(data), state, [[S(r) for r in t.screen()], t.r, t.c], 1 if good_ops(done) else 0,
-                _look(t)]
+                _look(t, data)]
     data = io.fetch_output()
     t = _screen(data, w)
-    return [0, termemu.tokens(data), _state(secs), [[S(r) for r in t.screen()], t.r, t.c], 1 if good_ops(c["ops"]) else 0, _look(t)]
+    return [0, termemu.tokens(data), _state(secs), [[S(r) for r in t.screen()], t.r, t.c], 1 if good_ops(c["ops"]) else 0, _look(t, data)]
 
 
-def _look(t):
-    """the pens of the screen's cells and the pen the terminal is left with"""
-    return [t.pens(), t.pen]
+def _look(t, data=None):
+    """the pens of the screen's cells and the pen the terminal is left with; the same bytes on a terminal that already shows
+    three rows above the cursor (a cursor movement beyond the first section's first row is invisible on an empty terminal)"""
+    t2 = termemu.Term(t.w)
+    t2.feed(PREAMBLE + (data or ""))
+    return [t.pens(), t.pen, [t2.screen(), t2.r, t2.c]]
 
 
 def canon_impl(c, o):
@@ -385,7 +438,7 @@ def oracle(c, o):
             return "formatter-raised-on-good-markup"
         ops = [x for x in ops if x[0] != 5][:j]          # what follows is asked of the calls before it
         o = [0] + o[3:]
-    _, toks, secs, (screen, r, col), good, (pens, pen) = o
+    _, toks, secs, (screen, r, col), good, (pens, pen, (pre_screen, pre_r, pre_c)) = o
     if not c["ansi"]:
         if any(t[0] not in (0, 1) for t in toks):
             return "control-code-on-plain-output"
@@ -413,8 +466,8 @@ def oracle(c, o):
             if v is None:
                 return None
             rows += termemu.wrap_rows(v, w)
-        if lines != len(rows):
-            return "row-count-disagrees-with-content"
+        # (section.lines - the row count the section keeps for itself - is compared with the model, not asked of here: the
+        # statement speaks of the screen and of the contents, not of the accounting)
         stack += rows
     got = [unS(x) for x in screen]
     if not good and cut18(ops):
@@ -425,6 +478,9 @@ def oracle(c, o):
         return None
     if got != stack + [""] or r != len(stack) or col != 0:
         return "screen-differs-from-stacked-contents"
+    npre = PREAMBLE.count("\n")
+    if pre_screen != PREAMBLE.split("\n")[:-1] + got or pre_r != npre + r or pre_c != 0:
+        return "rows-above-the-sections-disturbed"
     if good:
         # ... and it shows them in their own look: every cell has the pen its own line's markup gives it (a style does not
         # leak from one line or section into the next), and the terminal is left with the default pen
@@ -444,7 +500,7 @@ def nontrivial_key(c, o):
     tagged = any(op[0] in (1, 2) and 6 <= op[2] < 20 for op in c["ops"])
     indented = any(op[0] in (4, 5) and op[-1] > 0 for op in c["ops"])
     if len(used) >= 2 or wrapped or tagged or indented:
-        return [c["ansi"], width(c), c["ops"]]
+        return [c["ansi"], c.get("out"), width(c), c["ops"]]
     return None
 
 
@@ -453,6 +509,7 @@ def shrink(c):
     for i in range(len(ops)):
         if ops[i][0] != 0:
             d = {"ansi": c["ansi"], "ops": ops[:i] + ops[i + 1:]}
-            if "w" in c:
-                d["w"] = c["w"]
+            for k in ("w", "out"):
+                if k in c:
+                    d[k] = c[k]
             yield d
